@@ -151,8 +151,8 @@ def exFancy : String := "# head\r\n\r\n  Alias   a\tb # tail\r\nDecay X\n\n   0.
 `ReadRT.renderD ℓ d` writes the statements `d` with the layout `ℓ`: any non-empty runs of blanks and
 tabs between the tokens, indentation, trailing blanks, an optional comment before each line end, LF or
 CRLF, any number of blank and comment lines between the statements (and between the lines of a decay
-block), model parameters separated by blanks, commas, line ends and comments, optional blanks before
-the semicolon, doubled semicolons, a closing `End` line.  Whatever the layout, `readDoc` gives the
+block), optional blanks around `:` and `=`, model parameters separated by blanks, commas, line ends
+and comments, optional blanks before the semicolon, doubled semicolons, a closing `End` line.  Whatever the layout, `readDoc` gives the
 statements back; hence any two layouts of the same statements read alike. -/
 
 /-- Stage 1: label-only statements in the canonical layout (single blanks, one statement per line) -/
@@ -227,8 +227,11 @@ def exDocRT : Doc := [
       model := .named "HELAMP" (some [.num "1.0", .word "x", .num "-2e3"]) },
     { bf := ".25", ds := ["a"], photos := true, model := .named "PHSP" none },
     { bf := "1", ds := [], photos := false, model := .alias "myModel" },
-    { bf := "1", ds := ["x", "y", "z"], photos := true, model := .alias "myModel" }],
-  .modelAlias "myModel" (.named "HELAMP" (some [.num "1"])),
+    { bf := "1", ds := ["x", "y", "z"], photos := true, model := .alias "myModel" },
+    { bf := "0.1", ds := ["a"], photos := false,
+      model := .named "HELAMP" (some [.word "-dm", .word "+x", .num "1.0", .word "-fD", .word "PHSP", .word "-A*B"]) },
+    { bf := "0.1", ds := ["-a"], photos := false, model := .named "PHSP" (some []) }],
+  .modelAlias "myModel" (.named "HELAMP" (some [.num "1", .word "-q2", .word "-z~"])),
   .decay "X" []]
 
 def exLineLayout : ReadRT.LLayout :=
@@ -239,7 +242,9 @@ def exLineLayout : ReadRT.LLayout :=
 
 def exLayoutRT : ReadRT.DocLayoutD :=
   { pre := [⟨[' '], some "head".toList, true⟩, ⟨[], none, false⟩],
-    stmts := List.replicate 16 { main := exLineLayout } ++
+    stmts := List.replicate 10 { main := exLineLayout } ++
+      List.replicate 3 { main := { exLineLayout with opGaps := [[], [' ', ' '], [], ['\t']] } } ++
+      List.replicate 3 { main := exLineLayout } ++
       [{ main := exLineLayout, lines := [exLineLayout, {}, exLineLayout],
          close := { indent := ['\t'], comment := some ['x'] } }],
     endLine := some { indent := [' '], trail := [' '], comment := some " the end".toList } }
@@ -250,6 +255,31 @@ example : ReadRT.GoodLayoutD exLayoutRT := by decide
 example : ∀ s ∈ exDocRT, ReadRT.StmtOK exG s := by decide
 example : ∀ s ∈ exDocRT.take 7, ReadRT.FlatOK exG s := by decide
 example : ∀ s ∈ exDocRT.take 16, ReadRT.FlatNumOK exG s := by decide
+
+/-- word parameters may start with a sign when no number follows it (the `-NAME` form for the negated
+    value of a `Define`d name); a word needs to be no model name only right after a numeric parameter;
+    a parameter list may be present but empty (written with a comma) -/
+def exSignedLine : DLine :=
+  { bf := "0.5", ds := ["K*0", "-pi"], photos := false,
+    model := .named "HELAMP" (some [.word "-dm", .word "+x", .word "PHSP", .num "-2", .word "-x1"]) }
+
+example : ReadRT.LineOK exG exSignedLine := by decide
+example : ReadRT.StmtOK exG (.decay "B0" [exSignedLine, { exSignedLine with model := .named "PHSP" (some []) }]) := by decide
+example : ReadRT.StmtOK exG (.modelAlias "m" (.named "HELAMP" (some [.word "-dm", .word "+x"]))) := by decide
+example : String.ofList (ReadRT.renderD {} [.decay "B0" [exSignedLine, { exSignedLine with model := .named "PHSP" (some []) }]]) =
+    "Decay B0\n0.5 K*0 -pi HELAMP -dm +x PHSP -2 -x1;\n0.5 K*0 -pi PHSP,;\nEnddecay\n" := by decide
+-- what is still refused: a sign followed by a number start, a model name or PHOTOS right after a number
+example : ¬ ReadRT.ParamOK exG (.word "-1x") ∧ ¬ ReadRT.ParamOK exG (.word "+.5a") ∧
+    ¬ ReadRT.ParamsOK exG false [.num "1", .word "PHSP"] ∧ ¬ ReadRT.ParamsOK exG false [.num "1", .word "PHOTOS"] ∧
+    ReadRT.ParamsOK exG false [.word "PHSP", .word "PHOTOS", .num "1", .word "-dm"] := by decide
+
+/-- Pythia and JetSet statements without blanks around `:` and `=` -/
+example : String.ofList (ReadRT.renderD { stmts := [{ main := { opGaps := [[], [], [], []] } }, { main := { opGaps := [[], []] } }] }
+      [.pythia "PythiaBothParam" "MSTJ(26)" "x" (.word "-a"), .jetset "MSTU(1)" "-1"]) =
+    "PythiaBothParam MSTJ(26):x=-a\nJetSetPar MSTU(1)=-1\n" := by decide
+example : ReadRT.GoodLayoutD { stmts := [{ main := { opGaps := [[], [], [], []] } }, { main := { opGaps := [[], []] } }] } := by decide
+example : ∀ s ∈ [Stmt.pythia "PythiaBothParam" "MSTJ(26)" "x" (.word "-a"), .jetset "MSTU(1)" "-1"], ReadRT.StmtOK exG s := by
+  decide
 
 /-- the plain example text above is the canonical rendering of its statements, so the round trip
     theorem (not an evaluation of the reader) says what it reads to -/
